@@ -7,7 +7,10 @@ import os
 import re
 import subprocess
 import sys
+import threading
 import time
+
+BUILD_LOCK = threading.Lock()
 
 HERE = os.path.dirname(os.path.abspath(__file__))
 sys.path.insert(0, HERE)
@@ -182,7 +185,9 @@ def run_batch(batch_name, seed=0, keep=True, retry=True):
     """returns a result dict; raises lib.Lost for lost anchors"""
     os.makedirs(BUILD, exist_ok=True)
     t0 = time.time()
-    mod, ctx, text, fnmap = build(batch_name)
+    # generation is serialised (batches may temporarily wrap lib functions while they build); the Verus runs are parallel
+    with BUILD_LOCK:
+        mod, ctx, text, fnmap = build(batch_name)
     res = {'batch': batch_name, 'status': 'ok', 'problems': []}
     # provenance: everything outside logged rewrite spans / sentinel insertions is the source text
     bad = [it._where('') for it in ctx.items if it.base is not None and not it.provenance_ok()]
